@@ -242,9 +242,11 @@ class Network(MutableMapping):
         :param timestamp:
             Timestamp of the message, preferably as a Unix timestamp
         """
-        if can_id in self.subscribers:
-            callbacks = self.subscribers[can_id]
-            for callback in callbacks:
+        callbacks = self.subscribers.get(can_id)
+        if callbacks is not None:
+            # Iterate over a snapshot: a callback or another thread may
+            # subscribe or unsubscribe while the message is dispatched
+            for callback in tuple(callbacks):
                 callback(can_id, data, timestamp)
         self.scanner.on_message_received(can_id)
 
